@@ -7,6 +7,7 @@ import (
 	"github.com/relex/gotils/logger"
 	"github.com/relex/slog-agent/defs"
 	"github.com/relex/slog-agent/util"
+	"github.com/relex/slog-agent/util/vhook"
 )
 
 // LogAllocator allocates empty log records and backing buffers
@@ -47,6 +48,7 @@ func (alloc *LogAllocator) NewRecord(input []byte) (*LogRecord, util.MutableStri
 	// pooling speeds up 10% in agent benchmarks but minus 20% in pipeline benchmarks
 	record := alloc.recordPool.Get().(*LogRecord)
 	record._refCount += alloc.initialRefCount
+	vhook.E("alloc.new", "rec", record, "refs", record._refCount)
 	if len(input) > defs.InputLogMinRecordBytesToPool {
 		backbuf := alloc.backbufPools.Get(len(input))
 		record._backbuf = backbuf
@@ -64,6 +66,7 @@ func (alloc *LogAllocator) Release(record *LogRecord) {
 		logger.Panic("negative reference count in record: ", record)
 	}
 	if record._refCount > 0 {
+		vhook.E("alloc.release", "rec", record, "refs", record._refCount)
 		return
 	}
 	for i := range record.Fields {
@@ -71,6 +74,7 @@ func (alloc *LogAllocator) Release(record *LogRecord) {
 	}
 	record.RawLength = 0
 	record.Timestamp = time.Time{}
+	vhook.E("alloc.recycle", "rec", record)
 	alloc.recycleRecord(record)
 }
 
